@@ -317,10 +317,11 @@ class SDML_Supervised(_BaseSDML, TransformerMixin):
                     ' version 0.6.3 and will be removed in 0.7.0'
                     '', FutureWarning)
       self.n_constraints = num_constraints
+      num_constraints = 'deprecated'
     else:
       self.n_constraints = n_constraints
     # Avoid test get_params from failing (all params passed sholud be set)
-    self.num_constraints = 'deprecated'
+    self.num_constraints = num_constraints
 
   def fit(self, X, y):
     """Create constraints from labels and learn the SDML model.
